@@ -3,6 +3,7 @@ package seq
 import (
 	"fmt"
 	"testing"
+	"time"
 
 	age "github.com/craterdog/go-collection-framework/v4/agent"
 	col "github.com/craterdog/go-collection-framework/v4/collection"
@@ -326,6 +327,40 @@ func execConcat[E any](c fnCase, cd lib.Codec[E]) (res core.Result) {
 		if !lib.EqInts(arr(r), snapshot) {
 			res.Violation = core.Violate("C16/Concatenate/operand-aliases-result", "mutating an operand of %s changed the result: %v -> %v", desc, snapshot, arr(r))
 			return
+		}
+		// more than two parties: two results of the same operands and a result of a result; each one is changed in
+		// place in turn, and every other party stays as it was
+		a = L.MakeFromArray(encAll(cd, c.A))
+		b = a
+		if !c.Alias {
+			b = L.MakeFromArray(encAll(cd, c.B))
+		}
+		empty := L.Make()
+		r1, r2 := L.Concatenate(a, b), L.Concatenate(a, b)
+		r3, r4 := L.Concatenate(r1, empty), L.Concatenate(empty, a)
+		parties := []col.ListLike[E]{a, b, r1, r2, r3, r4, empty}
+		names := []string{"the first operand", "the second operand", "the result", "a second result of the same operands", "Concatenate(result, [])", "Concatenate([], first operand)", "the empty list that was an operand"}
+		content := make([][]int, len(parties))
+		for k, p := range parties {
+			content[k] = arr(p)
+		}
+		for _, k := range []int{2, 3, 5, 4, 0} {
+			p := parties[k]
+			if p.GetSize() == 0 || (c.Alias && k == 0) {
+				continue
+			}
+			p.SetValue(1, cd.Enc(90+k))
+			p.ReverseValues()
+			content[k] = arr(p)
+			if c.Alias && k == 0 {
+				content[1] = content[0]
+			}
+			for j, q := range parties {
+				if !lib.EqInts(arr(q), content[j]) && !(len(arr(q)) == 0 && len(content[j]) == 0) {
+					res.Violation = core.Violate("C16/Concatenate/parties-not-independent", "%s: after %s was changed in place, %s holds %v, it held %v", desc, names[k], names[j], arr(q), content[j])
+					return
+				}
+			}
 		}
 		res.NonTrivial = len(c.A) > 0 && len(bvals) > 0
 		if c.Alias {
@@ -660,6 +695,9 @@ func TestC16(t *testing.T) {
 	defer r.End()
 	core.DFS(r, core.Check[fnCase]{Name: "all-small-operands", Gen: genFnExhaustive, Exec: execFnCase, NoJournal: true}, 0)
 	core.Rapid(r, core.Check[fnCase]{Name: "random-operands", Gen: genFnRandom, Exec: execFnCase}, r.N(2000, 10000))
+	core.DFS(r, core.Check[manyCallersCase]{Name: "many-callers", Gen: func(s core.Source) manyCallersCase {
+		return manyCallersCase{Fn: core.Pick(s, []string{"Extract", "Merge", "Concatenate"}, "fn"), Callers: []int{40, 200, 600}[s.Choose(3, "callers")], Rounds: 30}
+	}, Exec: execManyCallers, HangLimit: 120 * time.Second}, 0)
 	core.DFS(r, core.Check[keyIdentityCase]{Name: "key-identity", Gen: genKeyIdentity, Exec: execKeyIdentity, NoJournal: true}, 0)
 }
 
